@@ -27,14 +27,28 @@ type WebRTCPeer struct {
 
 	mu          sync.Mutex // protects the following:
 	lastReceive time.Time
+	bytesLogger bytesLogger
 
 	open   chan struct{} // Channel to notify when datachannel opens
 	closed chan struct{}
 
 	once sync.Once // Synchronization for PeerConnection destruction
 
-	bytesLogger  bytesLogger
 	eventsLogger event.SnowflakeEventReceiver
+}
+
+// setBytesLogger replaces the traffic logger; it may be called while the
+// DataChannel callbacks are already running.
+func (c *WebRTCPeer) setBytesLogger(l bytesLogger) {
+	c.mu.Lock()
+	c.bytesLogger = l
+	c.mu.Unlock()
+}
+
+func (c *WebRTCPeer) getBytesLogger() bytesLogger {
+	c.mu.Lock()
+	defer c.mu.Unlock()
+	return c.bytesLogger
 }
 
 func NewWebRTCPeer(config *webrtc.Configuration,
@@ -92,7 +106,7 @@ func (c *WebRTCPeer) Write(b []byte) (int, error) {
 	if err != nil {
 		return 0, err
 	}
-	c.bytesLogger.addOutbound(len(b))
+	c.getBytesLogger().addOutbound(len(b))
 	return len(b), nil
 }
 
@@ -228,7 +242,7 @@ func (c *WebRTCPeer) preparePeerConnection(config *webrtc.Configuration) error {
 			log.Println("0 length message---")
 		}
 		n, err := c.writePipe.Write(msg.Data)
-		c.bytesLogger.addInbound(n)
+		c.getBytesLogger().addInbound(n)
 		if err != nil {
 			// TODO: Maybe shouldn't actually close.
 			log.Println("Error writing to SOCKS pipe")
